@@ -6,8 +6,10 @@
 (* The EMF formatter (emf.rs) is long lived and reuses, between calls of   *)
 (* `format`, six string buffers (each with a constant prefix), a           *)
 (* dimension-set map and - rebuilt for every call - the per-call writer    *)
-(* state (allow_split_entries, unroutable flag, entry dimensions, error    *)
-(* builder, timestamp).  This module models exactly that reuse:            *)
+(* state (allow_split_entries, unroutable flag, entry dimensions, the      *)
+(* per-entry validation map in which config() registers the names of the   *)
+(* entry dimensions, error builder, timestamp).  This module models        *)
+(* exactly that reuse:                                                     *)
 (*                                                                         *)
 (*   f   the formatter state kept between calls (buffers as sequences of   *)
 (*       tokens, the first token "P" being the constant prefix; the map;   *)
@@ -35,7 +37,9 @@
 (* TLC checks them over all sequences of kinds (the reachable states) for  *)
 (* every configuration class.  CONSTANT Bug re-introduces one missing      *)
 (* reset at a time (dimsCached: a dimension-header cache whose flag is only *)
-(* updated when the write succeeds); those runs must FAIL (sensitivity).   *)
+(* updated when the write succeeds; edimsMemo: validation bookkeeping      *)
+(* skipped when an entry repeats the previous EntryDimensions value);      *)
+(* those runs must FAIL (sensitivity).                                     *)
 (*                                                                         *)
 (* Consequently the prediction for position i of any sequence is           *)
 (* Out(F0, c, kind_i): EmfHistoryReplay prints sequences and the harness   *)
@@ -78,9 +82,14 @@ Cfg ==
 (*   skip   a metric with only NaN observations (written, then truncated)   *)
 (*   sets   per-metric dimension sets used                                  *)
 (*   split  the entry carries AllowSplitEntries                             *)
-(*   edims  the entry carries EntryDimensions                               *)
+(*   edims  the EntryDimensions value the entry carries: none | X | Y       *)
+(*          (X = [["Extra"]], Y = [["Shard"]]; neither is a default         *)
+(*          dimension of any configuration)                                 *)
 (*   why    the validation defect (none | unique | names | dimexist |      *)
-(*          nosplit | always)                                               *)
+(*          nosplit | always | edimfield: the member named by the entry's    *)
+(*          EntryDimensions is absent or written as a metric - found only   *)
+(*          because config() registered the name in the per-entry           *)
+(*          validation map)                                                 *)
 (*   huge   multi-megabyte members (buffers grow beyond the shrink limit)   *)
 (*   rate   none | ok | bad (format_with_sample_rate on a sampled config)   *)
 (***************************************************************************)
@@ -89,25 +98,29 @@ K(str, glob, cnt, skip, sets, split, edims, why, huge, rate) ==
    edims |-> edims, why |-> why, huge |-> huge, rate |-> rate]
 
 Kind ==
-  [ scalar      |-> K(<<"op">>, <<"lat", "size">>, FALSE, FALSE, <<>>, FALSE, FALSE, "none", FALSE, "none"),
-    hist        |-> K(<<"op">>, <<"lat">>, TRUE, FALSE, <<>>, FALSE, FALSE, "none", FALSE, "none"),
-    dupField    |-> K(<<"op">>, <<"lat", "lat">>, FALSE, FALSE, <<>>, FALSE, FALSE, "unique", FALSE, "none"),
-    emptyName   |-> K(<<"op">>, <<"lat">>, FALSE, FALSE, <<>>, FALSE, FALSE, "names", FALSE, "none"),
-    awsName     |-> K(<<"op">>, <<"lat">>, FALSE, FALSE, <<>>, FALSE, FALSE, "names", FALSE, "none"),
-    missingDim  |-> K(<<>>, <<"lat">>, FALSE, FALSE, <<>>, FALSE, FALSE, "dimexist", FALSE, "none"),
-    dimIsMetric |-> K(<<>>, <<"opm", "lat">>, FALSE, FALSE, <<>>, FALSE, FALSE, "dimexist", FALSE, "none"),
-    dimsNoSplit |-> K(<<"op">>, <<"lat">>, FALSE, FALSE, <<"A">>, FALSE, FALSE, "nosplit", FALSE, "none"),
-    twoTs       |-> K(<<"op">>, <<"lat">>, FALSE, FALSE, <<>>, FALSE, FALSE, "always", FALSE, "none"),
-    errValue    |-> K(<<"op">>, <<"lat">>, TRUE, FALSE, <<>>, FALSE, FALSE, "always", FALSE, "none"),
-    edimsTwice  |-> K(<<"op", "x">>, <<"lat">>, FALSE, FALSE, <<>>, FALSE, TRUE, "always", FALSE, "none"),
-    split1      |-> K(<<"op">>, <<"lat">>, FALSE, FALSE, <<"A">>, TRUE, FALSE, "none", FALSE, "none"),
-    split2      |-> K(<<"op">>, <<>>, TRUE, FALSE, <<"A", "B">>, TRUE, FALSE, "none", FALSE, "none"),
-    entryDims   |-> K(<<"op", "x">>, <<"lat">>, FALSE, FALSE, <<>>, FALSE, TRUE, "none", FALSE, "none"),
-    unroutable  |-> K(<<"msg">>, <<>>, FALSE, FALSE, <<>>, FALSE, FALSE, "none", FALSE, "none"),
-    sampled     |-> K(<<"op">>, <<"lat">>, TRUE, FALSE, <<>>, FALSE, FALSE, "none", FALSE, "ok"),
-    badRate     |-> K(<<"op">>, <<"lat">>, FALSE, FALSE, <<>>, FALSE, FALSE, "none", FALSE, "bad"),
-    allNaN      |-> K(<<"op">>, <<"lat">>, TRUE, TRUE, <<>>, FALSE, FALSE, "none", FALSE, "none"),
-    huge        |-> K(<<"op", "blob">>, <<"lat", "many">>, TRUE, FALSE, <<>>, FALSE, FALSE, "none", TRUE, "none") ]
+  [ scalar      |-> K(<<"op">>, <<"lat", "size">>, FALSE, FALSE, <<>>, FALSE, "none", "none", FALSE, "none"),
+    hist        |-> K(<<"op">>, <<"lat">>, TRUE, FALSE, <<>>, FALSE, "none", "none", FALSE, "none"),
+    dupField    |-> K(<<"op">>, <<"lat", "lat">>, FALSE, FALSE, <<>>, FALSE, "none", "unique", FALSE, "none"),
+    emptyName   |-> K(<<"op">>, <<"lat">>, FALSE, FALSE, <<>>, FALSE, "none", "names", FALSE, "none"),
+    awsName     |-> K(<<"op">>, <<"lat">>, FALSE, FALSE, <<>>, FALSE, "none", "names", FALSE, "none"),
+    missingDim  |-> K(<<>>, <<"lat">>, FALSE, FALSE, <<>>, FALSE, "none", "dimexist", FALSE, "none"),
+    dimIsMetric |-> K(<<>>, <<"opm", "lat">>, FALSE, FALSE, <<>>, FALSE, "none", "dimexist", FALSE, "none"),
+    dimsNoSplit |-> K(<<"op">>, <<"lat">>, FALSE, FALSE, <<"A">>, FALSE, "none", "nosplit", FALSE, "none"),
+    twoTs       |-> K(<<"op">>, <<"lat">>, FALSE, FALSE, <<>>, FALSE, "none", "always", FALSE, "none"),
+    errValue    |-> K(<<"op">>, <<"lat">>, TRUE, FALSE, <<>>, FALSE, "none", "always", FALSE, "none"),
+    edimsTwice  |-> K(<<"op", "x">>, <<"lat">>, FALSE, FALSE, <<>>, FALSE, "X", "always", FALSE, "none"),
+    split1      |-> K(<<"op">>, <<"lat">>, FALSE, FALSE, <<"A">>, TRUE, "none", "none", FALSE, "none"),
+    split2      |-> K(<<"op">>, <<>>, TRUE, FALSE, <<"A", "B">>, TRUE, "none", "none", FALSE, "none"),
+    entryDims   |-> K(<<"op", "x">>, <<"lat">>, FALSE, FALSE, <<>>, FALSE, "X", "none", FALSE, "none"),
+    entryDims2  |-> K(<<"op", "y">>, <<"lat">>, FALSE, FALSE, <<>>, FALSE, "Y", "none", FALSE, "none"),
+    edimsMissing  |-> K(<<"op">>, <<"lat">>, FALSE, FALSE, <<>>, FALSE, "X", "edimfield", FALSE, "none"),
+    edimsMissing2 |-> K(<<"op">>, <<"lat">>, FALSE, FALSE, <<>>, FALSE, "Y", "edimfield", FALSE, "none"),
+    edimsMetric   |-> K(<<"op">>, <<"xm", "lat">>, FALSE, FALSE, <<>>, FALSE, "X", "edimfield", FALSE, "none"),
+    unroutable  |-> K(<<"msg">>, <<>>, FALSE, FALSE, <<>>, FALSE, "none", "none", FALSE, "none"),
+    sampled     |-> K(<<"op">>, <<"lat">>, TRUE, FALSE, <<>>, FALSE, "none", "none", FALSE, "ok"),
+    badRate     |-> K(<<"op">>, <<"lat">>, FALSE, FALSE, <<>>, FALSE, "none", "none", FALSE, "bad"),
+    allNaN      |-> K(<<"op">>, <<"lat">>, TRUE, TRUE, <<>>, FALSE, "none", "none", FALSE, "none"),
+    huge        |-> K(<<"op", "blob">>, <<"lat", "many">>, TRUE, FALSE, <<>>, FALSE, "none", "none", TRUE, "none") ]
 
 KindNames == DOMAIN Kind
 \* the writer's behaviour during a call: never fails | fails on the first byte | in the middle
@@ -123,7 +136,9 @@ Bufs == {"sf", "fl", "mt", "dc", "dm", "ct"}
 F0 == [sf |-> P, fl |-> P, mt |-> P, dc |-> P, dm |-> P, ct |-> P,
        dsm |-> <<>>,          \* dimension set |-> [fl, mt]   (a function with a finite domain)
        big |-> {},            \* buffers grown beyond the shrink limit
-       split |-> FALSE, unroutable |-> FALSE, edims |-> FALSE,   \* per-call writer state
+       split |-> FALSE, unroutable |-> FALSE, edims |-> "none",  \* per-call writer state
+       vmap |-> {},           \* per-call validation map: entry-dimension names still to be found
+       memo |-> "none",       \* only with Bug = "edimsMemo": the last EntryDimensions value seen
        dmdef |-> FALSE]       \* only with Bug = "dimsCached": "dm already holds the default dimensions"
 
 \* PrefixedStringBuf::clear: truncate to the prefix, then shrink the capacity
@@ -140,7 +155,7 @@ Begin(g) ==
       g2 == IF Bug = "declNotCleared" THEN g1 ELSE Clear(g1, "dc")
       g3 == IF Bug = "mapNotCleared" THEN g2 ELSE [g2 EXCEPT !.dsm = <<>>]
       g4 == IF Bug = "splitHoisted" THEN g3 ELSE [g3 EXCEPT !.split = FALSE]
-  IN [g4 EXCEPT !.unroutable = FALSE, !.edims = FALSE]
+  IN [g4 EXCEPT !.unroutable = FALSE, !.edims = "none", !.vmap = {}]
 
 Histogram(cf, k) == Kind[k].cnt \/ (cf.samp /\ Kind[k].rate = "ok")
 
@@ -157,6 +172,10 @@ Body(g, cf, k) ==
       g1 == [g EXCEPT !.sf = @ \o Toks(k, kd.str),
                       !.split = @ \/ kd.split,
                       !.edims = kd.edims,
+                      \* config(EntryDimensions): the names are registered for THIS entry, whatever
+                      \* an earlier entry configured (Bug edimsMemo: skipped on a repeated value)
+                      !.vmap = IF kd.edims = "none" \/ (Bug = "edimsMemo" /\ g.memo = kd.edims) THEN {} ELSE {kd.edims},
+                      !.memo = IF Bug = "edimsMemo" /\ kd.edims # "none" THEN kd.edims ELSE @,
                       !.unroutable = (k = "unroutable"),
                       !.big = IF kd.huge THEN @ \cup {"sf", "fl", "ct"} ELSE @]
       cu == IF Histogram(cf, k) THEN UseCounts(g1, k) ELSE [val |-> <<>>, st |-> g1]
@@ -185,6 +204,7 @@ Rejects(g, cf, k) ==
   \/ kd.why = "always"
   \/ kd.why \in {"unique", "names"} /\ cf.val
   \/ kd.why = "dimexist" /\ cf.val /\ cf.dim
+  \/ kd.why = "edimfield" /\ cf.val /\ kd.edims \in g.vmap
   \/ (kd.sets # <<>> \/ (cf.gd /\ kd.glob # <<>>)) /\ ~cf.ign /\ ~g.split
 
 \* EntryWriter::finish, the writer failing as told by w.  Lines are written one by one: the
@@ -202,11 +222,11 @@ Finish(g, cf, k, w) ==
         \* does the write of a per-dimension-set line fail?
         failsInSets == \/ w \in {"first", "mid"} /\ dlines # {}
                        \/ w = "last" /\ ~needGlobal
-        usesDefault == ~g.edims
+        usesDefault == g.edims = "none"
         reuse == Bug = "dimsCached" /\ usesDefault /\ g.dmdef
         gm == IF Bug = "dimsNotCleared" \/ reuse THEN g2 ELSE Clear(g2, "dm")
         g3 == IF needGlobal
-                THEN [gm EXCEPT !.dm = IF reuse THEN @ ELSE @ \o <<IF g.edims THEN "entrydims" ELSE "defaultdims">>,
+                THEN [gm EXCEPT !.dm = IF reuse THEN @ ELSE @ \o <<IF g.edims # "none" THEN "entrydims:" \o g.edims ELSE "defaultdims">>,
                                 !.mt = @ \o <<"close">>]
                 ELSE g2
         \* the cache flag of Bug = "dimsCached" is updated after the write, i.e. on success only
